@@ -85,6 +85,8 @@ func c14Gen(r *rand.Rand, tier string) []Case {
 			c = append(c, fmt.Sprintf("slash %s %d", pick(r, kinds), 1+r.Intn(999)))
 		}
 		c = append(c, fmt.Sprintf("govburn %d", 1+r.Intn(1_000_000)))
+		// a redirected burn of several denominations at once (deposits of a vetoed proposal in two denominations)
+		c = append(c, fmt.Sprintf("burn2 %d %d %d", 1+r.Intn(3), 1+r.Intn(1_000_000), 1+r.Intn(1_000_000)))
 		out = append(out, c)
 	}
 	return out
@@ -179,6 +181,48 @@ func c14Exec(c Case) (outs []string, fails []Failure, tags []string) {
 					if sub(pre.sup, post.sup).Cmp(amt) != 0 || post.pool.Cmp(pre.pool) != 0 {
 						fails = append(fails, Failure{Signature: "C14:plain-burn-changed-meaning", What: fmt.Sprintf("burn of %s by %s: supply −%s, community pool +%s", amt, c14Mods[m], sub(pre.sup, post.sup), sub(post.pool, pre.pool)), Case: c[:i+1]})
 					}
+				}
+			case "burn2":
+				out = "skip"
+				m := vmIdx(f[1])
+				coins := sdk.NewCoins(sdk.NewCoin(denom, sdkmath.NewIntFromBigInt(mustBig(f[2]))), sdk.NewCoin("bcoin", sdkmath.NewIntFromBigInt(mustBig(f[3]))))
+				if err := app.BankKeeper.MintCoins(ctx, coinomicstypes.ModuleName, coins); err != nil {
+					panic(err)
+				}
+				if err := app.BankKeeper.SendCoinsFromModuleToModule(ctx, coinomicstypes.ModuleName, c14Mods[m], coins); err != nil {
+					panic(err)
+				}
+				type two struct{ sup, pool, distr sdk.Coins }
+				take2 := func() two {
+					var t two
+					for _, c := range coins {
+						t.sup = t.sup.Add(app.BankKeeper.GetSupply(ctx, c.Denom))
+						t.pool = t.pool.Add(sdk.NewCoin(c.Denom, app.DistrKeeper.GetFeePool(ctx).CommunityPool.AmountOf(c.Denom).TruncateInt()))
+						t.distr = t.distr.Add(app.BankKeeper.GetBalance(ctx, authtypes.NewModuleAddress(distrtypes.ModuleName), c.Denom))
+					}
+					return t
+				}
+				pre := take2()
+				if err := hk.BurnCoins(ctx, c14Mods[m], coins); err != nil {
+					panic(err)
+				}
+				post := take2()
+				tags = append(tags, "redirect-two-denominations")
+				d := func(dn string) string {
+					return fmt.Sprintf("%s/%s/%s", pre.sup.AmountOf(dn).Sub(post.sup.AmountOf(dn)), post.pool.AmountOf(dn).Sub(pre.pool.AmountOf(dn)), post.distr.AmountOf(dn).Sub(pre.distr.AmountOf(dn)))
+				}
+				out = fmt.Sprintf("ok a=%s b=%s", d(denom), d("bcoin"))
+				fl := func(sig, w string) {
+					fails = append(fails, Failure{Signature: sig, What: "BurnCoins(" + c14Mods[m] + ", " + coins.String() + "): " + w, Case: c[:i+1]})
+				}
+				if !post.sup.IsEqual(pre.sup) {
+					fl("C14:supply-changed", fmt.Sprintf("total supply %s → %s", pre.sup, post.sup))
+				}
+				if !post.pool.Sub(pre.pool...).IsEqual(coins) {
+					fl("C14:community-pool-delta", fmt.Sprintf("community pool grew by %s", post.pool.Sub(pre.pool...)))
+				}
+				if !post.distr.Sub(pre.distr...).IsEqual(coins) {
+					fl("C14:distribution-account-delta", fmt.Sprintf("distribution account grew by %s", post.distr.Sub(pre.distr...)))
 				}
 			case "slash":
 				out = "skip"
